@@ -12,7 +12,7 @@ from .rules_common import rules_of
 from .rules_common import (digest_checked_before_delete, MUT, primary, base_class, key_matches, showlock, site_text, site_func, site_loc,
                            mutation_events, resource_hits, func_nodes)
 from .terms import (AnalysisError, show, showv, tag, C, P, V, NONE, EMPTY, classify, is_rooted, is_summary,
-                    subterms, PathClass)
+                    subterms, PathClass, is_const)
 
 Q = lambda n: f"{CLS}.{n}"  # noqa: E731
 REJECT = ("HashStoreRefsAlreadyExists", "PidRefsAlreadyExistsError")
@@ -494,6 +494,10 @@ def check_C05(A: Analysis, tier):
     for f in c15.findings:
         rf.fail(f.func, f.construct, f.message, f.loc, f.detail)
     rules.append(rf)
+    rh5 = Rule("C05", "C05.h", "delete_object has a clean-up branch for every partial reference condition the pid look-up classifies "
+               "(\"clears the pid from whatever partial reference condition the public API itself can create\"; shared with C10.b)", floor=3)
+    cleanup_branch_rule(A, rh5, rollback=False)
+    rules.append(rh5)
     return rules
 
 
@@ -587,6 +591,42 @@ def is_const_int_buffered(t):
 
 
 # =======================================================================================
+def cleanup_branch_rule(A, rule, rollback):
+    """every inconsistency class the pid look-up raises is caught in delete_object (and, with `rollback`, in the tagging
+    roll-back): by a handler of a try that contains the look-up call, or - whatever the nesting of helpers - by a handler
+    of that function which the interpreter has seen catching the class"""
+    fo = A.impl("_find_object")
+    raised = set()
+    for n in func_nodes(fo, ast.Raise):
+        if isinstance(n.exc, ast.Call) and isinstance(n.exc.func, ast.Name) and n.exc.func.id in A.p.exc_classes:
+            raised.add(n.exc.func.id)
+
+    def handled(fq, entry):
+        out = set()
+        f = A.p.func(fq)
+        for t in func_nodes(f, ast.Try):
+            if any(isinstance(c, ast.Call) and norm(c.func).endswith("_find_object") for s in t.body for c in ast.walk(s)):
+                for h in t.handlers:
+                    if h.type is not None:
+                        out |= {norm(e) for e in (h.type.elts if isinstance(h.type, ast.Tuple) else [h.type])}
+        for m in ALL_MODES:
+            for (fn, h, lab, ctx, o) in A.api(entry, m).handler_runs:
+                if fn.qual == fq and lab in A.p.exc_classes:
+                    out.add(lab)
+        return out
+
+    hd = handled(A.impl_q("delete_object"), "delete_object")
+    hu = handled(Q("_untag_object"), "tag_object") if rollback else set()
+    for cls in sorted(raised):
+        rule.inst(f"_find_object raises {cls}")
+        rule.ob(2 if rollback else 1)
+        if cls != "PidRefsDoesNotExist" and cls not in hd and "Exception" not in hd:
+            rule.fail(Q("delete_object"), f"except {cls}", f"_find_object classifies a partial state as {cls} but delete_object has no "
+                      "clean-up branch for it: a pid interrupted in that state can never be deleted and stored again")
+        if rollback and cls not in hu and "Exception" not in hu:
+            rule.fail(Q("_untag_object"), f"except {cls}", f"_find_object raises {cls} but the tagging roll-back does not handle it")
+
+
 def check_C10(A: Analysis, tier):
     rules = []
     ra = Rule("C10", "C10.a", "durable steps happen in the order the recovery code is written for: object before "
@@ -639,31 +679,7 @@ def check_C10(A: Analysis, tier):
 
     rb = Rule("C10", "C10.b", "every inconsistency class _find_object can raise has a clean-up branch in delete_object "
               "and in the roll-back", floor=3)
-    fo = A.p.func(Q("_find_object"))
-    raised = set()
-    for n in func_nodes(fo, ast.Raise):
-        if isinstance(n.exc, ast.Call) and isinstance(n.exc.func, ast.Name) and n.exc.func.id in A.p.exc_classes:
-            raised.add(n.exc.func.id)
-
-    def handled(fq, node=None):
-        out = set()
-        f = A.p.func(fq)
-        for t in func_nodes(f, ast.Try):
-            if any(isinstance(c, ast.Call) and norm(c.func).endswith("_find_object") for s in t.body for c in ast.walk(s)):
-                for h in t.handlers:
-                    if h.type is not None:
-                        out |= {norm(e) for e in (h.type.elts if isinstance(h.type, ast.Tuple) else [h.type])}
-        return out
-
-    hd, hu = handled(A.impl_q("delete_object")), handled(Q("_untag_object"))
-    for cls in sorted(raised):
-        rb.inst(f"_find_object raises {cls}")
-        rb.ob(2)
-        if cls != "PidRefsDoesNotExist" and cls not in hd and "Exception" not in hd:
-            rb.fail(Q("delete_object"), f"except {cls}", f"_find_object classifies a partial state as {cls} but delete_object has no "
-                    "clean-up branch for it: a pid interrupted in that state can never be deleted and stored again")
-        if cls not in hu and "Exception" not in hu:
-            rb.fail(Q("_untag_object"), f"except {cls}", f"_find_object raises {cls} but the tagging roll-back does not handle it")
+    cleanup_branch_rule(A, rb, rollback=True)
     rules.append(rb)
 
     rc = Rule("C10", "C10.c", "every clean-up branch of delete_object unbinds the pid (renames its reference away), "
@@ -1295,6 +1311,30 @@ def check_C15(A: Analysis, tier):
         if not keys:
             rd.fail(fq, "yaml keys", f"{fq} no longer reads any configuration key (anchor lost)", A.p.loc(f, f.node))
     rules.append(rd)
+
+    # the documented configuration records depth and width as integers (README / the Java reader); the constructor accepts
+    # integer-like strings, so what reaches the writer must have passed the integer coercion of the validator
+    rh15 = Rule("C15", "C15.h", "the depth and width written to hashstore.yaml are integers: at the call that builds the file's text from the "
+                "constructor, both values are results of int(...) (the validated copy), not the properties as the caller spelled them", floor=2)
+    it_i = A.run(Q("__init__"), "th")
+    bq = A.impl_q("_build_hashstore_yaml_string")
+    for c in it_i.calls:
+        if c["callee"] != bq:
+            continue
+        for k, v in zip(dicts[0].keys, dicts[0].values):
+            if not (isinstance(k, ast.Constant) and k.value in ("store_depth", "store_width") and isinstance(v, ast.Name)):
+                continue
+            vals = (c.get("argmap") or {}).get(v.id)
+            if vals is None:
+                continue
+            rh15.ob()
+            rh15.inst(f"{c['func'].qual}:{c['node'].lineno} {k.value} <- {sorted(tag(t) for t in vals)}")
+            bad = [t for t in vals if not (tag(t) == "int" or (is_const(t) and isinstance(t[1], int) and not isinstance(t[1], bool)))]
+            if bad:
+                rh15.fail(c["func"], c["node"], f"`{k.value}` reaches the hashstore.yaml writer without integer coercion: the constructor accepts integer-like "
+                          "strings, which would be recorded as YAML strings that other HashStore implementations / versions refuse",
+                          A.p.loc(c["func"], c["node"]), {"value": [showv(frozenset([t]))[:80] for t in bad]})
+    rules.append(rh15)
     # the depth, width, algorithm and default namespace an instance works with are the *supplied* ones; they are the
     # store's own only because the constructor established equality with hashstore.yaml (C14.a)
     from .rules_data import check_C14
